@@ -1,4 +1,5 @@
 import IpcModel.Lemmas.RouterProof
+import IpcModel.GenRouter
 import IpcModel.Lemmas.RouterDispatch
 /-!
 # C07 — router: each routed message reaches its handler once, in order; then it is freed
@@ -55,5 +56,9 @@ theorem C07_fresh (es : List Ev) : Fresh (run fixed Router.init es) := by
 example : (run fixed ⟨[], 1, [.addRoute 10, .addRoute 20], false, []⟩
     [.wake, .wake, .msg 1 5, .msg 2 6, .msg 1 7, .closed 1, .msg 2 8]).log
     = [.invoke 10 5, .invoke 20 6, .invoke 10 7, .dropH 10, .invoke 20 8] := by decide
+
+/-- the event loop of the real `Router::run` distinguishes exactly the four kinds of select result the model's `step` has
+(wake-up message, routed message, wake-up channel closed, routed channel closed) — regenerated from `src/router.rs` -/
+theorem C07_shape : Gen.routerRunArms = 4 := by decide
 
 end C07
